@@ -223,7 +223,7 @@ func (l *tableInterior) Iter(r int, db *Database, cb iterCB) (bool, error) {
 		return false, ErrRecursion
 	}
 	return l.cellIter(db, func(p int) (bool, error) {
-		page, err := db.openTable(p)
+		page, err := db.openTableChild(p)
 		if err != nil {
 			return false, err
 		}
@@ -239,7 +239,7 @@ func (l *tableInterior) IterMin(r int, db *Database, rowid int64, cb iterCB) (bo
 		return false, ErrRecursion
 	}
 	return l.cellIterMin(db, rowid, func(pageID int) (bool, error) {
-		page, err := db.openTable(pageID)
+		page, err := db.openTableChild(pageID)
 		if err != nil {
 			return false, err
 		}
@@ -349,7 +349,7 @@ func (l *indexInterior) Iter(r int, db *Database, cb indexIterCB) (bool, error) 
 		return false, ErrRecursion
 	}
 	for _, c := range l.cells {
-		page, err := db.openIndex(c.left)
+		page, err := db.openIndexChild(c.left)
 		if err != nil {
 			return false, err
 		}
@@ -371,7 +371,7 @@ func (l *indexInterior) Iter(r int, db *Database, cb indexIterCB) (bool, error) 
 		}
 	}
 
-	page, err := db.openIndex(l.rightmost)
+	page, err := db.openIndexChild(l.rightmost)
 	if err != nil {
 		return false, err
 	}
@@ -398,7 +398,7 @@ func (l *indexInterior) IterMin(r int, db *Database, key Key, cb indexIterCB) (b
 
 	useIter := false
 	for _, c := range l.cells[n:] {
-		page, err := db.openIndex(c.left)
+		page, err := db.openIndexChild(c.left)
 		if err != nil {
 			return false, err
 		}
@@ -426,7 +426,7 @@ func (l *indexInterior) IterMin(r int, db *Database, key Key, cb indexIterCB) (b
 			return done, err
 		}
 	}
-	page, err := db.openIndex(l.rightmost)
+	page, err := db.openIndexChild(l.rightmost)
 	if err != nil {
 		return false, err
 	}
